@@ -43,6 +43,15 @@ theorem GeAffine.from_bytes_k1 (s : Bytes) (h : s.length = 32) (y X : Fe) :
     generalize (n != (s[31] >>> 7 != 0)) = c
     cases c <;> cases o2 <;> rfl
 
+/-- the generated `select` with its `debug_assert!` marker removed.  The step `simp only [Glue.debugAssert_iff]` FAILS when the
+    generated text carries no marker (i.e. when the source says `assert!`, or nothing): `assert!` ↔ `debug_assert!` breaks the tie -/
+theorem GePrecomp.select_src_unmarked (pos : Nat) (b : Int) :
+    GePrecomp.select_src pos b =
+      (if (b ≥ (-8 : Int)) ∧ (b ≤ (8 : Int)) then GePrecomp.select_src pos b else none) := by
+  unfold GePrecomp.select_src
+  simp only [Glue.debugAssert_iff]
+  split <;> simp_all
+
 /-- `GePrecomp::select` on the seventeen digits the `debug_assert!` allows (the `i8`/`u8` bit tricks are evaluated) -/
 theorem GePrecomp.select_in (pos : Nat) (b : Int) (h : -8 ≤ b ∧ b ≤ 8) : GePrecomp.select_src pos b = GePrecomp.select pos b := by
   have : b = -8 ∨ b = -7 ∨ b = -6 ∨ b = -5 ∨ b = -4 ∨ b = -3 ∨ b = -2 ∨ b = -1 ∨ b = 0 ∨ b = 1 ∨ b = 2 ∨ b = 3 ∨ b = 4
